@@ -71,6 +71,12 @@ CHECKS.update({
                 text="Metadata: every member of every family (Hill and Shekel 0..999, Shekel4 1..3, Grishagin 1..100, GKLS 2..5 x 1..100, Rastrigin and XSquared 1..8, StronginC3) is constructed in shuffled order and TLC checks dimension = lengths of names and bounds, lower < upper, one objective, known optimum inside the box. Tables: for each row of the 2 x 1000 published (minimum, maximum, Lipschitz constant) tables a certificate is built from values observed through Problem.Calculate (the object living among sibling instances) and checked by Cert1D.tla in exact rational arithmetic with bounds on the first four derivatives derived from the shipped coefficient tables: the global minimum (maximum) lies within 1e-4 of the tabulated value, every global minimiser lies within 1e-4 of the range of the tabulated location (strict convexity or end-point monotonicity on a neighbourhood, certified sign change of f', and a covering whose cell-wise lower bounds exclude everything else), and the constant is within 0.1% of max |f'| (mean-value witness below, cell-wise upper bound above). A clause is violated only if a refutation certificate checks (an observed value outside the tolerance, f' of one certified sign around the tabulated location, a witness slope above / an upper bound below the tabulated constant); rows neither accepted nor refuted are counted as undecided. Ten deliberately corrupted rows per run must be refuted (binding demonstration)."),
 })
 
+CHECKS.update({
+    "C14": dict(level="other", design="4/C14", note="parameters are read from the public attributes GKLS.function.GKLS_minima; the reference golden/gkls.json was recorded from the pinned tree (no fix: commit touches iOpt/problems) and is cross-checked by the structural clauses; square roots enclosed to 2^-72, comparisons of sqrt-based quantities carry 1e-9 slack; TLC 1.8.0, CommunityModules, Q kernel",
+                technique="TLC evaluation of the GKLS structure predicates and of the D-type case analysis (GKLSSpec.tla) on the parameters and observed values of all 400 functions + continuity pairs + committed reference values",
+                text="For every (dimension, number) - quick: 12 numbers per dimension plus (3,1), thorough: all 400 - the generated object's parameters are read from its public attributes while all objects of the run are alive, and GKLSSpec.tla checks in exact rational arithmetic: 10 minimisers inside the box; pairwise non-overlapping attraction balls (the paraboloid vertex's ball included); the global minimiser at the class distance from the vertex with the class radius and value -1, every other minimum strictly higher, the declared optimum equal to it; the value formula of every local minimum. Every observed value (the minimisers themselves, points inside every ball along axes / towards the vertex / random directions at several radii, far-field points, box corners) is recomputed by the specification's own classification and three-way case analysis (paraboloid outside the balls, exact prescribed value at a minimiser, the cubic inside ball i). Continuity is required on pairs straddling every ball boundary. Parameters and 50 values per function must equal the committed reference bit for bit. Two corrupted records per run must be rejected (binding demonstration)."),
+})
+
 NOT_YET = {
 }
 
